@@ -1,14 +1,32 @@
 #!/usr/bin/env python3
-"""MANIFEST.setup_cmd: build every Lean module and driver the claimed checks need (offline; files on disk only)."""
+"""MANIFEST.setup_cmd: build every Lean module and driver the checks need (offline; files on disk only).
+Targets are built per property so that one failing module cannot prevent the others from being prebuilt;
+a failing build is reported again (as a failed proof obligation) by the check that needs it, so setup itself
+only fails when lake cannot run at all."""
 import os, sys, subprocess, importlib, json
 ROOT = os.path.dirname(os.path.abspath(__file__))
 sys.path.insert(0, ROOT)
-targets = ["EaselModel"]
+LEAN = os.path.join(ROOT, "lean")
+if subprocess.call(["lake", "build", "EaselModel"], cwd=LEAN) != 0:
+    print("setup: base library failed to build", file=sys.stderr)
+bad = []
 for l in open(os.path.join(ROOT, "properties.jsonl")):
     i = json.loads(l)["id"]
-    if os.path.exists(os.path.join(ROOT, "props", i.lower() + ".py")):
+    if not os.path.exists(os.path.join(ROOT, "props", i.lower() + ".py")):
+        continue
+    try:
         spec = importlib.import_module("props." + i.lower()).SPEC
-        targets += list(spec.lean_modules) + ([spec.lean_exe] if spec.lean_exe else [])
-rc = subprocess.call(["lake", "build"] + targets, cwd=os.path.join(ROOT, "lean"))
-# a failing build here is reported again (as a failed obligation) by the check that needs it
-sys.exit(0 if rc == 0 else 1)
+    except Exception as e:
+        print("setup: cannot import plug-in %s: %r" % (i, e), file=sys.stderr); bad.append(i); continue
+    try:
+        from vlib import engine
+        ch = engine.regenerate_only(spec)      # translated / table files follow /repo's working tree
+        if ch: print("setup: regenerated", ch, file=sys.stderr)
+    except Exception as e:
+        print("setup: regeneration for %s failed: %r" % (i, e), file=sys.stderr)
+    targets = list(spec.lean_modules) + ([spec.lean_exe] if spec.lean_exe else [])
+    if targets and subprocess.call(["lake", "build"] + targets, cwd=LEAN, stdout=subprocess.DEVNULL) != 0:
+        bad.append(i)
+if bad:
+    print("setup: Lean targets of %s did not build; their checks will report it" % bad, file=sys.stderr)
+sys.exit(0)
